@@ -54,7 +54,6 @@ Definition denote_tree (d : Def) : option Node :=
   if generics_free d then den_node d (S (length (d_modules d))) (d_entry d) else None.
 
 (* ---- flattening ---- *)
-Definition gate_pos := (path * ident * N)%type.      (* owner path, gate name, position *)
 
 Fixpoint den_mods (n : Node) (p : path) : list (path * ident) :=
   match n with
@@ -102,3 +101,20 @@ Fixpoint den_conns (n : Node) (p : path) : list (gate_pos * gate_pos * option Li
        end) subs ++
     own_conns (mkNode typ subs gates conns) p
   end.
+
+(* the connection set a list of connection statements denotes: both directions; a pair that is
+   connected twice counts once, with the link of the first statement (Gate::connect ignores the repeat) *)
+Definition half_edge := (gate_pos * gate_pos * option Link)%type.
+Definition gate_pos_eqb (a b : gate_pos) : bool :=
+  let '(p, n, k) := a in let '(q, m, j) := b in path_eqb p q && beq n m && (k =? j).
+Fixpoint conn_set (l : list half_edge) (acc : list half_edge) : list half_edge :=
+  match l with
+  | [] => acc
+  | (a, b, k) :: r =>
+    if existsb (fun e => gate_pos_eqb (fst (fst e)) a && gate_pos_eqb (snd (fst e)) b) acc then conn_set r acc
+    else conn_set r (acc ++ [(a, b, k); (b, a, k)])
+  end.
+
+(* the three sets of the property *)
+Definition denotation (n : Node) : list (path * ident) * list (path * ident * N * N) * list half_edge :=
+  (den_mods n [], den_gates n [], conn_set (den_conns n []) []).
